@@ -1,5 +1,5 @@
 #!/usr/bin/env python3
-"""seedtest.py [<seed-id> …] [--props=C01,C02] [--tier=quick] [--all-props]
+"""seedtest.py [<seed-id> …] [--props=C01,C02] [--tier=quick] [--all-props] [--committed]
 
 Runs the checks against each seeded breaking change (/verif/seeded/<id>/patch.diff) WITHOUT touching
 /repo or /verif: a sandbox copy of /verif (build caches included) and a scratch git worktree of /repo
@@ -24,8 +24,14 @@ def main():
         if a == "--all-props": allp = True
     ids = ids or sorted(d for d in os.listdir(os.path.join(V, "seeded")) if os.path.isfile(os.path.join(V, "seeded", d, "patch.diff")))
     os.makedirs(SV, exist_ok=True)
-    r = sh(f"rsync -a --delete --exclude .git --exclude harness/target --exclude work --exclude replays --exclude 'evidence/*' {V}/ {SV}/verif/")
-    assert r.returncode in (0, 24), r.stderr   # 24: files vanished (concurrent builds)
+    if "--committed" in sys.argv:
+        # the COMMITTED state of /verif (engineers may be editing the working tree): export HEAD, keep the sandbox's own build caches
+        sh(f"rm -rf {SV}/export && mkdir -p {SV}/export {SV}/verif && git -C {V} archive HEAD | tar -x -C {SV}/export")
+        r = sh(f"rsync -rlpgoD --checksum --delete --exclude lean/.lake --exclude harness/target --exclude harness/repo --exclude work --exclude replays --exclude 'evidence/*' {SV}/export/ {SV}/verif/")
+        assert r.returncode == 0, r.stderr
+    else:
+        r = sh(f"rsync -a --delete --exclude .git --exclude harness/target --exclude work --exclude replays --exclude 'evidence/*' {V}/ {SV}/verif/")
+        assert r.returncode in (0, 24), r.stderr   # 24: files vanished (concurrent builds)
     sh(f"git -C /repo worktree remove --force {SV}/repo")
     r = sh(f"git -C /repo worktree add -q --detach {SV}/repo HEAD"); assert r.returncode == 0, r.stderr
     sh(f"ln -sfn {SV}/repo {SV}/verif/harness/repo")
